@@ -62,7 +62,7 @@ RuleInit(cfg) ==
    since |-> [s \in St |-> 0], online |-> {},
    pub |-> [s \in St |-> NoView], pre |-> [s \in St |-> NoView],
    grant |-> [s \in St |-> NoGrant],
-   offered |-> [s \in St |-> {}], selfOffer |-> [s \in St |-> FALSE], selfSeen |-> -1, envSince |-> 0, pasTaint |-> FALSE, rogue |-> FALSE, unread |-> 0,
+   offered |-> [s \in St |-> {}], selfOffer |-> [s \in St |-> FALSE], selfSeen |-> -1, envSince |-> 0, pasTaint |-> FALSE, joinedBusy |-> [s \in St |-> FALSE], rogue |-> FALSE, unread |-> 0,
    pas |-> NoPass,
    visit |-> [s \in St |-> NoVisit],
    recvPrev |-> [s \in St |-> -1], recvCur |-> [s \in St |-> -1],
@@ -155,10 +155,10 @@ OnTx(rs, e) ==
   LET s == e.st  b == e.b  k == Kind(b)  cfg == rs.cfg  St == rs.St
       last == rs.last  gap == e.t0 - last.t1
       cls == Class(rs, e)
-      \* signature of known finding F17: a claim token sent while another station's telegram is still on the wire,
-      \* by a station that came online after that telegram had started (it cannot decode what it hears and does not
-      \* count it as bus activity)
-      f17 == k = "token" /\ Da(b) = s /\ Sa(b) = s /\ last.by \notin {-1, s} /\ e.t0 < last.t1 /\ rs.since[s] > last.t0
+      \* signature of known finding F17: a claim token sent while another station's telegram is on the wire, as the
+      \* first transmission of a station that came online in the middle of a telegram (it cannot decode what it hears
+      \* and does not count it as bus activity)
+      f17 == k = "token" /\ Da(b) = s /\ Sa(b) = s /\ last.by \notin {-1, s} /\ e.t0 < last.t1 /\ rs.joinedBusy[s]
       single == cfg.mode = "single"         \* one station against a scripted, possibly non-conforming peer
       judged == ~rs.disturbed               \* fault-free premise (C01 C11 C12 C13 C15)
       jring == judged /\ ~single            \* clauses that presuppose conforming partners
@@ -251,7 +251,7 @@ OnTx(rs, e) ==
               \o (IF judged /\ sresp THEN <<"C12.reply.state">> ELSE <<>>)
       (* ---- state update *)
       rs1 == [rs EXCEPT !.last = [by |-> s, t0 |-> e.t0, t1 |-> e.t1, b |-> b, app |-> rs.appsent[s]],
-                        !.rogue = @ \/ rs.unread > 0, !.selfOffer[s] = FALSE, !.selfSeen = -1,
+                        !.rogue = @ \/ rs.unread > 0, !.selfOffer[s] = FALSE, !.selfSeen = -1, !.joinedBusy[s] = FALSE,
                         \* telegrams still unread in the PHY buffer will be acted on later: what the wire shows and what the
                         \* station has seen differ, the supervision episode cannot be counted from the wire
                         !.pasTaint = @ \/ rs.unread > 0,
@@ -359,7 +359,7 @@ OnPoll(rs, e) ==
               \o (IF ~wasReached /\ rs2.reached THEN <<ConvProp(rs) \o ".converge">> ELSE <<>>)
       \* a cadence overrun is reported once: restart the counters
       rs3 == IF cadOk THEN rs2 ELSE [rs2 EXCEPT !.cadBad = FALSE]
-  IN RA(cs, [st |-> s, f17 |-> (becomesReady /\ rs.last.by \notin {-1, s} /\ e.t < rs.last.t1 /\ rs.since[s] > rs.last.t0)], rs3, hits)
+  IN RA(cs, [st |-> s, f17 |-> (becomesReady /\ rs.last.by \notin {-1, s} /\ e.t < rs.last.t1 /\ rs.joinedBusy[s])], rs3, hits)
 
 (* ------------------------------------------------------------------ Cb (C15) *)
 OnCb(rs, e) ==
@@ -394,7 +394,9 @@ OnOnline(rs, e) ==
     [rs EXCEPT !.online = @ \cup {s}, !.since[s] = e.t, !.lastPop = e.t, !.reached = FALSE, !.goodTokens = 0,
                !.pub[s] = NoView, !.pre[s] = NoView, !.rot[s] = NoRot, !.grant[s] = NoGrant,
                !.visit[s] = NoVisit, !.recvPrev[s] = -1, !.recvCur[s] = -1, !.outstanding[s] = -1,
-               !.rrNext[s] = -1, !.cadNs[s] = -1, !.offered[s] = {}, !.rogue = FALSE], <<>>)
+               !.rrNext[s] = -1, !.cadNs[s] = -1, !.offered[s] = {}, !.rogue = FALSE,
+               \* the station comes online while a telegram is on the wire: it cannot decode what it hears (F17)
+               !.joinedBusy[s] = (rs.last.by \notin {-1, s} /\ e.t < rs.last.t1)], <<>>)
 OnOffline(rs, e) ==
   \* a station that stops between its transmissions leaves the wire readable (the hand-over clauses of C11 stay
   \* judged); one that is cut off in the middle of a telegram garbles it
